@@ -6,3 +6,4 @@ pub mod palette;
 pub mod rt;
 pub mod sgr;
 pub mod vt;
+pub mod xml;
